@@ -126,6 +126,7 @@ func main() {
 			boundsSeen = map[ssa.Instruction]*boundStat{}
 			c.provers, c.retCases, c.retQs, c.retOK = nil, nil, nil, nil
 			c.routerMemo = nil
+			provMemo, provNote = map[string]map[string]SV{}, map[string]string{}
 			for _, n := range aliasNotes {
 				rep.Notes = append(rep.Notes, "renamed identifier resolved: "+n)
 			}
